@@ -475,7 +475,7 @@ M('write-lists-before-open', ['C13'], RL, "                try:\n               
 M('read-index-off-by-one', ['C13'], RL, "            if (read_idx := self.read_idx) >= (nlogfiles := len(logfiles := self.logfiles)):\n                if not autorefresh:", "            if (read_idx := self.read_idx) > (nlogfiles := len(logfiles := self.logfiles)):\n                if not autorefresh:", ['C13.R7'])
 M('read-gives-up-closes', ['C13'], RL, "                        if (read_idx := self.read_idx + (self.read_file is not None)) >= (nlogfiles := len(logfiles := self.logfiles)):  # the refresh keeps the open file if it is still listed (go one past it), otherwise it already moved on to the first newer file (continue there, not one past it)\n                            return None", "                        if (read_idx := self.read_idx + (self.read_file is not None)) >= (nlogfiles := len(logfiles := self.logfiles)):\n                            read_file.close()\n                            self.read_file = None\n                            return None", ['C13.R7'])
 M('read-line-strips-two', ['C13'], RL, "            data = data[:-1].decode()", "            data = data[:-2].decode()", ['C13.R7'])
-M('read-never-refreshes', ['C13'], RL, "                        autorefresh = False\n\n                        self.refresh_logfiles()\n\n                        if self.read_file is not None and (data :=", "                        autorefresh = False\n\n                        if self.read_file is not None and (data :=", ['C13.R7'])
+M('read-never-refreshes', ['C13'], RL, "                        autorefresh = False\n\n                        self.refresh_logfiles()\n\n                        if self.read_file is not None:  # the writer may", "                        autorefresh = False\n\n                        if self.read_file is not None:  # the writer may", ['C13.R7'])
 M('scan-pattern-three-digit-year', ['C13', 'C14'], RL, "r'(\\d+)_\\d{4}-\\d{2}-\\d{2}_", "r'(\\d+)_\\d{3}-\\d{2}-\\d{2}_", ['C13.R8', 'C14.R7'])
 M('scan-timestamp-milliseconds', ['C13', 'C14'], RL, "logfiles.append(RollLogFile(int(m.group(1)) / 1_000_000, path", "logfiles.append(RollLogFile(int(m.group(1)) / 1_000, path", ['C13.R8', 'C14.R7'])
 M('scan-not-sorted', ['C13'], RL, "        logfiles.sort()\n", "", ['C13.R8'])
@@ -647,7 +647,7 @@ M('cli-D31-shape-ipc-unchecked', ['C12'], CLI, "                    while new_so
 M('cli-ipc-user-outputs-not-recorded', ['C12'], CLI, "            elif output.startswith(\"ipc://\"):\n                ipc_outputs.add(only_mq_addr(output))\n", "", ['C12.R9'])
 M('seek-D32-shape-end-past-list', ['C13', 'C14'], RL, "                        read_file.seek(0, 2)\n\n                        self.read_idx -= 1\n", "                        read_file.seek(0, 2)\n", ['C13.R10', 'C14.R10'])
 M('init-D32-shape-default-past-list', ['C13'], RL, "        self.seek(('end', 0))\n\n        if head is not None:", "        self.read_idx = len(self.logfiles)\n\n        if head is not None:", ['C13.R10'])
-M('read-D33-shape-no-reread', ['C13', 'C14'], RL, "                        if self.read_file is not None and (data := read_file.read() if block else read_file.readline()):  # the writer may have completed this file between our empty read and the rescan, do not leave it unread\n                            break\n\n", "", ['C13.R4', 'C14.R10'])
+M('read-D33-shape-no-reread', ['C13', 'C14'], RL, "                        if self.read_file is not None:  # the writer may have completed this file between our empty read and the rescan, do not leave it unread\n                            data = take()\n\n                            if data:\n                                break\n\n", "", ['C13.R4', 'C14.R10'])
 M('allowlist-D34-shape-scalar', ['C16'], CF, "                names = config.get(\"safe_metrics\") or []  # 'safe_metrics:' with nothing under it is an empty list: the file still takes precedence over the environment\n                if isinstance(names, str):  # a scalar instead of a list: one entry (or a comma list), not a set of its characters\n                    names = names.split(\",\")\n                return set(str(name).strip() for name in names if str(name).strip())", "                return set(config.get(\"safe_metrics\", []))", ['C16.R6'])
 M('seed6-C06-repeat-not-counted', ['C06', 'C04'], Z, "            clients[full_id] = ZMQSender.Client(client_id, pull, t, True, ephemeral, prev_id)", "            known            = clients.get(full_id)\n            clients[full_id] = ZMQSender.Client(client_id, pull, t, known is None or known.requested or prev_id != known.prev_id, ephemeral, prev_id)", ['C06.R9', 'C04.R1'])
 M('seed6-C14-guard-compares-raw-float', ['C14', 'C13'], RL, "if (logfiles := self.logfiles) and int(ts * 1_000_000) <= (last_us := round(logfiles[-1].timestamp * 1_000_000)):  # a repeated or backwards timestamp would reuse (and truncate) an existing file name or break the sort order, so name the new file one microsecond after the newest one\n            ts = (last_us + 1.5) / 1_000_000", "if (logfiles := self.logfiles) and ts <= (last_ts := logfiles[-1].timestamp):\n            ts = (round(last_ts * 1_000_000) + 1.5) / 1_000_000", ['C14.R9', 'C13.R1'])
@@ -768,7 +768,9 @@ M('seed10-C02-first-copy-wins', ['C02', 'C01'], Z, "                        elif
 M('seed10-C04-outputs-timeout-default-finite', ['C04'], F, "self.outputs_timeout = float('inf') if (to := config.outputs_timeout) is None else int(to)", "self.outputs_timeout = self.sources_timeout if (to := config.outputs_timeout) is None else int(to)", ['C04.R12'])
 M('seed10-C06-publish-refreshes-t_last', ['C06'], Z, "                clients[full_id] = ZMQSender.Client(client_id, pull, t_last, False, ephemeral, prev_id)", "                clients[full_id] = ZMQSender.Client(client_id, pull, time_ns() // 1_000_000, False, ephemeral, prev_id)", ['C06.R16'])
 M('seed10-C10-decode-anycolor', ['C10', 'C09'], FR, "cv2.IMREAD_COLOR if format != 'GRAY' else 0)) is None:", "(cv2.IMREAD_COLOR if format else cv2.IMREAD_ANYCOLOR) if format != 'GRAY' else 0)) is None:", ['C10.R14', 'C09.R5'])
-M('seed10-C13-seek-timestamp-unit', ['C13', 'C14'], RL, "            seek_timestamp = int(m.group(1)) / 1_000_000\n", "            seek_timestamp = int(m.group(1))\n", ['C13.R14'])
+M('seed10-C13-seek-timestamp-unit', ['C13', 'C14'], RL, "            seek_timestamp = int(m.group(1)) / 1_000_000\n", "            seek_timestamp = int(m.group(1))\n", ['C13.R14', 'C14.R11'])
 M('seed10-C15-unquote-before-mask', ['C15'], II, "return self._list_local_images(source.source[7:], source.options)", "return self._list_local_images(unquote(source.source[7:]), source.options)", ['C15.R1'])
 M('seed10-C17-writeback-by-position', ['C17'], UT, "            for topic_xform in res:\n                frames[topic_xform.topic] = topic_xform.frame\n", "            for topic, topic_xform in zip(frames, res):\n                frames[topic] = topic_xform.frame\n", ['C17.R11'])
 M('C16-facet-builder-filters-list-elements', ['C16'], LN, "                data[k] = [float(x) if isinstance(x, (int, float)) else str(x) for x in v]", "                data[k] = [float(x) if isinstance(x, (int, float)) else str(x) for x in v if x]", ['C16.R11'])
+M('rolllog-D79-shape-partial-record-returned', ['C13'], RL, "                if mode != 'bin' and data and not data.endswith(b'\\n'):\n                    read_file.seek((cut := data.rfind(b'\\n') + 1) - len(data), 1)\n\n                    data = data[:cut]\n\n", "", ['C13.R15'])
+M('rolllog-tail-dropped-but-not-put-back', ['C13'], RL, "                    read_file.seek((cut := data.rfind(b'\\n') + 1) - len(data), 1)\n\n                    data = data[:cut]\n", "                    data = data[:data.rfind(b'\\n') + 1]\n", ['C13.R15'])
